@@ -833,9 +833,20 @@ def r22(ctx: Ctx):
            ' repeated, and the shard states mix')
   fi = ctx.repo.func('chainables.courier_worker', 'WorkerPool.iterate')
   n = 0
+  # the set of workers that still run a shard: names bound to a set of `<task>.worker`
+  running = set()
+  for x in ast.walk(fi.node):
+    if isinstance(x, ast.Assign) and isinstance(x.value, (ast.SetComp, ast.Call)):
+      v0 = x.value
+      elt = v0.elt if isinstance(v0, ast.SetComp) else None
+      if elt is not None and isinstance(elt, ast.Attribute) and elt.attr == 'worker':
+        running |= {t.id for t in x.targets if isinstance(t, ast.Name)}
+  if not running:
+    raise AnalysisError(f'{rule}: WorkerPool.iterate no longer keeps a set of the workers that run a shard')
+  mentions_running = lambda e: any(isinstance(z, ast.Name) and z.id in running for z in ast.walk(e))
   for x in ast.walk(fi.node):
     tgt = x.targets[0] if isinstance(x, ast.Assign) else x.target if isinstance(x, ast.AnnAssign) else None
-    if tgt is None or not (isinstance(tgt, ast.Name) and tgt.id == 'workers') or x.value is None:
+    if tgt is None or not isinstance(tgt, ast.Name) or x.value is None:
       continue
     if not any(isinstance(y, ast.Attribute) and y.attr == 'idle_workers' for y in ast.walk(x.value)):
       continue
@@ -843,13 +854,13 @@ def r22(ctx: Ctx):
     v = x.value
     ok = False
     for y in ast.walk(v):
-      if isinstance(y, ast.BinOp) and isinstance(y.op, ast.Sub) and 'running_workers' in unparse(y.right):
+      if isinstance(y, ast.BinOp) and isinstance(y.op, ast.Sub) and mentions_running(y.right):
         ok = True
       if isinstance(y, (ast.ListComp, ast.SetComp, ast.GeneratorExp)):
         for g_ in y.generators:
           for cond in g_.ifs:
             conj = cond.values if isinstance(cond, ast.BoolOp) and isinstance(cond.op, ast.And) else [cond]
-            if any(isinstance(c_, ast.Compare) and isinstance(c_.ops[0], ast.NotIn) and 'running_workers' in unparse(c_.comparators[0])
+            if any(isinstance(c_, ast.Compare) and isinstance(c_.ops[0], ast.NotIn) and mentions_running(c_.comparators[0])
                    for c_ in conj):
               ok = True
     what = 'WorkerPool.iterate: a worker that still runs a shard is no candidate for the next one'
